@@ -28,6 +28,7 @@ type Program struct {
 	prodS map[string]bool
 
 	ssaProg *ssa.Program
+	ssaPartial bool // only the module's own packages have been built
 	ssaPkgs map[*packages.Package]*ssa.Package
 
 	funcDecls map[*types.Func]*ast.FuncDecl
@@ -146,6 +147,10 @@ func (p *Program) Pkg(rel string) *packages.Package {
 // SSA builds (once) the SSA form of the whole program.
 func (p *Program) SSA() *ssa.Program {
 	if p.ssaProg != nil {
+		if p.ssaPartial {
+			p.ssaProg.Build()
+			p.ssaPartial = false
+		}
 		return p.ssaProg
 	}
 	prog, pkgs := ssautil.AllPackages(p.All, ssa.InstantiateGenerics)
@@ -158,8 +163,30 @@ func (p *Program) SSA() *ssa.Program {
 	return prog
 }
 
+// SSAModule creates SSA packages for everything loaded but builds function bodies only for the
+// packages of the module under analysis (enough for rules that look at lox's own code; much cheaper
+// than building the standard library too). A later SSA() call builds the rest.
+func (p *Program) SSAModule() *ssa.Program {
+	if p.ssaProg != nil {
+		return p.ssaProg
+	}
+	prog, pkgs := ssautil.AllPackages(p.All, ssa.InstantiateGenerics)
+	p.ssaProg = prog
+	p.ssaPkgs = map[*packages.Package]*ssa.Package{}
+	for i, pk := range p.All {
+		p.ssaPkgs[pk] = pkgs[i]
+		if pkgs[i] != nil && strings.HasPrefix(pk.PkgPath, modPath) {
+			pkgs[i].Build()
+		}
+	}
+	p.ssaPartial = true
+	return prog
+}
+
 func (p *Program) SSAPkg(pk *packages.Package) *ssa.Package {
-	p.SSA()
+	if p.ssaProg == nil {
+		p.SSA()
+	}
 	if sp := p.ssaPkgs[pk]; sp != nil {
 		return sp
 	}
